@@ -380,7 +380,7 @@ def run(ctx):
 
     quick = ctx.tier == "quick"
     opt_items = []
-    vals = {"cores": (2, 8), "memory": ("4g", "16g"), "walltime": ("02:00:00", "10:00:00"), "queue": ("short", "long"), "account": ("projA", "projB"), "nodes": (1, 2),
+    vals = {"cores": (2, 8), "memory": ("4g", "16g"), "walltime": ("02:00:00", "10:00:00"), "queue": ("short", "long"), "account": ("projA", "projB"), "nodes": (1, 0),
             "constraint": ("c1", "c2"), "mail_type": ("END", "FAIL"), "mail_user": ("a@x", "b@y"), "qos": ("q1", "q2"), "gres": ("gpu:1", "gpu:2")}
     for kind in ("slurm", "sge", "lsf"):
         for opt in DEFAULTS[kind]:
@@ -417,7 +417,7 @@ def replay(case):
         vals = {"cores": (2, 8), "memory": ("4g", "16g")}
         # re-run the whole option (64 combos) and filter
         opt = case["option"] if case["option"] != "bogus_opt" else list(DEFAULTS[case["backend"]])[0]
-        v = {"cores": (2, 8), "memory": ("4g", "16g"), "walltime": ("02:00:00", "10:00:00"), "queue": ("short", "long"), "account": ("projA", "projB"), "nodes": (1, 2),
+        v = {"cores": (2, 8), "memory": ("4g", "16g"), "walltime": ("02:00:00", "10:00:00"), "queue": ("short", "long"), "account": ("projA", "projB"), "nodes": (1, 0),
              "constraint": ("c1", "c2"), "mail_type": ("END", "FAIL"), "mail_user": ("a@x", "b@y"), "qos": ("q1", "q2"), "gres": ("gpu:1", "gpu:2")}[opt]
         acc.MAX_VIOL_PER_SIG = 1000
         options_batch(acc, [(case["backend"], opt, *v)])
